@@ -102,6 +102,7 @@ class Run(object):
         self.violations = []
         self.notes = {}
         self.tags = set()
+        self.tag_scopes = {}  # tag -> set of task names its consequences can reach (absent = the whole run)
         self.script = []  # explicit replayable ops
         self.trace = []  # compact human readable record
         self.inflight = []  # dict(task, route, item, attempt, loop, uid)
@@ -143,7 +144,15 @@ class Run(object):
         # run-level cause tags (set by monitors from the case, never from the outcome) apply to
         # everything observed after them: once the engine's state has left the reference model
         # through a recorded defect, later disagreements are consequences of that defect
-        cause = list(cause or []) + [t for t in sorted(self.tags) if t not in (cause or [])]
+        # ... a tag with a scope (the affected task and what follows from it in the definition) is not attached to a
+        # violation about a task outside that scope: the defect cannot have reached it
+        names = set(self.model.tasks) if self.model is not None else set()
+
+        def applies(t):
+            sc = self.tag_scopes.get(t)
+            return sc is None or subject not in names or subject in sc
+
+        cause = list(cause or []) + [t for t in sorted(self.tags) if t not in (cause or []) and applies(t)]
         cause = cause or None
         self.violations.append(dict(prop=prop, kind=kind, detail=detail, subject=subject, cause=cause,
                                     step=self.step, label=self.label))
